@@ -49,7 +49,7 @@ PLAN = dict(
         "names whose patch/distfile kind depends on the reading of the rule ('dir/patch-aa', 'emul-patch-x', 'patch-x.tar'); in particular two names that share their trailing components always have the same kind here (a differing kind would need exactly such a name)",
         "documents of more than 300 files; insert() of a name that is already present (replacement); removing entries; set_rcsid called more than once",
         "documents outside canonical layout in the parse-write direction (C11 covers their parsing)",
-        "empty or upper-case hashes, two lines of one algorithm for a file, API entries with no line at all, patch entries carrying a size",
+        "empty hashes and hashes that are not hex digits of the algorithm's length (upper- and mixed-case hex is used), two lines of one algorithm for a file, API entries with no line at all, patch entries carrying a size",
         "RCS Ids containing LF; set_rcsid with a string that does not start with '$NetBSD: '",
     ],
 )
